@@ -45,6 +45,28 @@ def nontrivial(case, pred, fault=False):
     return n >= 2 and (RB.nonpass_count(case) > 0 or fault or desel)
 
 
+def autoretry_verdict(lab, mon, case):
+    """The documented auto-retry recipe (behave.contrib.scenario_autoretry on everything feature.scenarios lists, outlines
+    included) with deterministic outcomes: what failed fails again, so the run verdict is the one without the recipe."""
+    from behave.contrib.scenario_autoretry import patch_scenario_with_autoretry
+
+    def pre_run(st):
+        for f in st.features:
+            for container in [f] + list(f.rules):
+                for s in container.scenarios:
+                    patch_scenario_with_autoretry(s, max_attempts=2)
+    obs = lab.run(case["program"], args=case["args"], pre_run=pre_run)
+    pred = runmodel.predict(case["program"], case["cfg"])
+    mon.case(("autoretry", RB.strip_case(case)), nontrivial(case, pred))
+    if obs.escaped is not None:
+        mon.check("verdict.no_exception_escapes", False, lambda: RB.witness(case, recipe="autoretry", escaped=repr(obs.escaped)))
+        return
+    if pred.aborted or obs.runner.aborted:
+        return
+    mon.check("verdict.same_with_autoretry_recipe", bool(obs.verdict) in pred.verdict,
+              lambda: RB.witness(case, recipe="scenario_autoretry on feature.scenarios", got=bool(obs.verdict), want=sorted(pred.verdict)))
+
+
 def run_fault_free(lab, mon, case, sample=False):
     obs = lab.run(case["program"], args=case["args"])
     pred = runmodel.predict(case["program"], case["cfg"])
@@ -172,6 +194,9 @@ def run(spec, mon):
         if case["program"].get("user_skip"):
             mon.seen("environment_skips_container", "yes")
         obs, pred = run_fault_free(lab, mon, case, sample=(i == 0 and shard < 3))
+        if i % 6 == 4 and not case["cfg"]["dry_run"] and not case["program"].get("user_skip") and "ki" not in case["program"]["outcomes"].values() \
+                and "abort" not in case["program"]["outcomes"].values() and "skip" not in case["program"]["outcomes"].values():
+            autoretry_verdict(lab, mon, case)
         if obs.escaped is not None or case["cfg"]["dry_run"]:
             continue
         nh = len(obs.hooks)
